@@ -33,7 +33,7 @@ int main()
         std::string pat; bool braces = false;
         for (int i = 0; i < len; i++) { auto& t = toks[idx[i]]; pat += t.text; if (t.kind == 2) braces = true; }
         // independent specification: scan the final pattern text
-        std::string exp, want_out; bool want_ok = true; size_t order[16]; for (int a = 0; a < 16; a++) order[a] = 15; int ord = 0; unsigned set = 0; bool malformed = false, dup = false;
+        std::string exp, want_out, want_out2; bool want_ok = true; size_t order[16]; for (int a = 0; a < 16; a++) order[a] = 15; int ord = 0; unsigned set = 0; bool malformed = false, dup = false;
         for (size_t q = 0; q < pat.size();)
         {
           if (pat[q] == '%' && q + 1 < pat.size() && pat[q + 1] == '(')
@@ -45,9 +45,9 @@ int main()
             if (a < 0) { malformed = true; break; }
             if ((set >> a) & 1) dup = true;
             exp += "{" + sp + "}"; order[a] = ord++; set |= 1u << a; q = close + 1;
-            try { want_out += fmtquill::format(fmtquill::runtime("{" + sp + "}"), std::string_view{VAL[a]}); } catch (std::exception&) { want_ok = false; }
+            try { want_out += fmtquill::format(fmtquill::runtime("{" + sp + "}"), std::string_view{VAL[a]}); want_out2 += fmtquill::format(fmtquill::runtime("{" + sp + "}"), std::string_view{a == 15 ? "k1: v1, k2: v2" : (a == 14 ? "" : VAL[a])}); } catch (std::exception&) { want_ok = false; }
           }
-          else { char c = pat[q]; if (c == '{' || c == '}') { exp += c; exp += c; } else exp += c; want_out += c; q++; }
+          else { char c = pat[q]; if (c == '{' || c == '}') { exp += c; exp += c; } else exp += c; want_out += c; want_out2 += c; q++; }
         }
         exp += "\n";
         if (!dup)
@@ -63,10 +63,14 @@ int main()
             {
               // reference output: the final pattern text with each attribute replaced by its value formatted with its spec (built by the scanner above)
               std::string want = want_out + "\n";
-              for (int round = 0; round < 2; ++round)
+              static std::vector<std::pair<std::string, std::string>> const na = {{"k1", "v1"}, {"k2", "v2"}};
+              static constexpr MacroMetadata md_notags{"/a/b/f.cpp:42", "fn", "fmt", nullptr, LogLevel::Info, MacroMetadata::Event::Log};
+              for (int round = 0; round < 3; ++round)
               {
-                std::string out{f.format(1686614390ull * 1000000000ull, "tid", "tn", "pid", "lg", "INFO", "I", md, nullptr, "msg")};
-                check(o4, len == 0 ? out.empty() : out == want, pat + " -> " + out);
+                // rounds 0 and 1: no named args, tags "tg"; round 2: two named args, no tags - with the SAME formatter object (buffers are reused)
+                std::string out{round < 2 ? f.format(1686614390ull * 1000000000ull, "tid", "tn", "pid", "lg", "INFO", "I", md, nullptr, "msg")
+                                          : f.format(1686614390ull * 1000000000ull, "tid", "tn", "pid", "lg", "INFO", "I", md_notags, &na, "msg")};
+                check(o4, len == 0 ? out.empty() : out == (round < 2 ? want : want_out2 + "\n"), pat + " -> " + out);
               }
             }
           }
